@@ -1,24 +1,29 @@
 """C15 — an Ask returns its own reply or an error, and an in-time reply is never lost (E3 on PID.Ask / Response / pools / mailbox recycling)."""
 ID = "C15"
 import os
-# MODE: "asis" = PID.Ask as it is (late responseClosed.Store(true) after the select: findings C15-F1/F2);
-#       "fixed" = after fixes/C15-ask-no-late-store.diff (no atomic site after the select)
-MODE = os.environ.get("VERIF_C15_MODE", "asis")
+# MODE: "fixed" = PID.Ask as it is since fix d1a16fa (no atomic site after the select);
+#       "asis"  = the code before that fix (late responseClosed.Store(true) after the select), kept in the model for
+#                 the refutation theorems and the seeded revert (VERIF_C15_MODE=asis ties it to a tree with the fix reverted)
+MODE = os.environ.get("VERIF_C15_MODE", "fixed")
 LEAN_MODULES = ["GoaktVerif.Props.C15"]
 THEOREMS = [
-    "GoaktVerif.C15.C15_loss_witness",
-    "GoaktVerif.C15.C15_cross_witness",
-    "GoaktVerif.C15.C15_refuted",
-    "GoaktVerif.C15.C15_refuted_ownReply",
     "GoaktVerif.C15.finv_init",
     "GoaktVerif.C15.finv_step",
     "GoaktVerif.C15.finv_timeout",
     "GoaktVerif.C15.C15_fixed_ownReply",
+    "GoaktVerif.C15.ninv_init",
+    "GoaktVerif.C15.ninv_step",
+    "GoaktVerif.C15.C15_fixed_noLoss",
+    "GoaktVerif.C15.C15_holds",
+    "GoaktVerif.C15.C15_loss_witness",
+    "GoaktVerif.C15.C15_cross_witness",
+    "GoaktVerif.C15.C15_asIs_refuted",
+    "GoaktVerif.C15.C15_asIs_refuted_ownReply",
 ]
 MANIFEST = {
-    "level_text": "Kernel-checked refutation of both clauses on a small-step model of PID.Ask / ReceiveContext.build / Response / the contextCh and responseCh pools / UnboundedMailbox's recycling of the previous sentinel (any number of callers, deadlines as explicit steps): C15_loss_witness — a caller's late responseClosed.Store(true) hits a context already recycled and rebuilt for another Ask whose in-time reply is then dropped (24-step schedule); C15_cross_witness — a responder past its CAS sends into a response channel the timed-out caller already pooled and the next Ask took (10 steps). The model is tied to the current code step-for-step (same atomic-site labels, results, final pool digest) by running the REAL PID.Ask, build, Response, pools and mailbox on a bare PID under controlled schedules; deadlines are explicit context cancellations, never wall clock. The loss witness is replayed on the real code on every run (finding C15-F1).",
-    "level_note": "Partial: the property is false of the current code (C15-F1 replayed on the real code; C15-F2 proved on the model only because the window lies between a CAS and a channel send, where yieldinject has no schedule point). Positive theorem: C15_fixed_ownReply - for the repaired protocol (Mode.fixed = fixes/C15-ask-no-late-store.diff, tied to the patched tree in the self-test, both pools still in use) every reply an Ask receives is its own, for EVERY schedule, any number of callers, single consumer (inductive invariant FInv: linear ownership of receive contexts, a pooled channel is empty and referenced by no pending request; finv_init / finv_step / finv_timeout). The no-loss clause for the repaired protocol is not yet a theorem (it holds on the two refutation schedules and on 7500 search schedules on the patched code). Not modelled: the dispatcher (the harness plays the single worker: Dequeue + Response), remote Ask, SendSync/BatchAsk wrappers (they call PID.Ask), the grain Ask path (same pattern in grain_context.go/grain_engine.go, not tied). Trusted: a select with a ready reply takes the reply (the harness never makes both branches ready).",
-    "technique": "Lean 4 small-step model replayed against the real code under controlled schedules (yield injection), refutation by kernel evaluation of concrete schedules",
+    "level_text": "Kernel-checked, no bounds: C15_holds - on the small-step model of PID.Ask / ReceiveContext.build / Response / the contextCh and responseCh pools / UnboundedMailbox's recycling of the previous sentinel as the code is since fix d1a16fa (Mode.fixed; both pools in use; any number of callers with distinct request ids, a single consumer, deadlines as explicit steps, the CAS and the channel send of Response as separate steps) EVERY schedule satisfies both clauses: every reply an Ask receives is its own (C15_fixed_ownReply; invariant FInv: a receive context is in exactly one of {pool, unbuilt caller, mailbox, sentinel}, a pooled channel is empty and referenced by no pending request, a buffered value carries the id the channel was handed out for) and no Ask takes its timeout branch after Response for it has returned (C15_fixed_noLoss; invariant NInv: ids occur once, a pending context carries a built unanswered id and its caller waits on that context, a caller at its select has its reply in its channel as soon as Response returned). The code before the fix (Mode.asIs) is refuted for both clauses (C15_loss_witness 24 steps, C15_cross_witness 10 steps). Tie, re-run on every check: the REAL PID.Ask, build, Response, pools and mailbox run on a bare PID under controlled schedules and must produce the model's trace (atomic-site labels from yieldinject), results and final pool digest; deadlines are explicit context cancellations, never wall clock; the outcome oracle (own reply, no in-time reply lost) is evaluated on the implementation's own output.",
+    "level_note": "Partial in these respects: the dispatcher is not in the model (the harness plays the single worker: Dequeue + Response; that an actor has one worker at a time is property C01); actor.Ask (api.go) and actorSystem.handleRemoteAsk have the same body as PID.Ask and got the same fix but are not driven by the harness (they need an ActorSystem); SendSync/BatchAsk/ReceiveContext.Ask call PID.Ask; the grain Ask path (grain_engine.go still stores responseClosed on timeout on a pooled GrainContext) and remote Ask are not modelled; the CAS-to-send window of Response is covered by the theorem but not by the tie (no schedule point between them). Trusted: a select with a ready reply takes the reply (the harness never makes both branches ready); sync/atomic is sequentially consistent.",
+    "technique": "Lean 4 inductive invariants over a small-step model (all schedules), model replayed against the real code under controlled schedules (yield injection), refutation of the pre-fix code by kernel evaluation of concrete schedules",
 }
 TRUSTED = [
     "sync/atomic operations are sequentially consistent; code between two instrumented sites executes with the preceding site",
@@ -31,7 +36,9 @@ RULE = ("1-3 caller threads with 1-4 Asks each (distinct request ids), one worke
 INPKG = ["actor/zz_verif_c15.go"]
 INSTRUMENT = ["actor/pid.go", "actor/receive_context.go", "internal/timer/timer.go"]
 INSTRUMENT_ARGS = {
-    "actor/pid.go": ["-funcs", "PID.Ask"],
+    # PID.Tell is listed only so that the file always has at least one site (check.py cannot digest a file without
+    # sites); the repaired PID.Ask has none, a late store re-introduced into it shows up as extra trace labels
+    "actor/pid.go": ["-funcs", "PID.Ask,PID.Tell"],
     "actor/receive_context.go": ["-funcs", "ReceiveContext.Response,ReceiveContext.build"],
     "internal/timer/timer.go": ["-entry", "Pool.Get"],
 }
@@ -42,9 +49,7 @@ SITES = {
 }
 if MODE == "asis":
     SITES["actor/pid.go:PID.Ask"] = ["Store:responseClosed", "Store:responseClosed", "Store:responseClosed"]
-else:
-    # the repaired PID.Ask has no atomic site of its own (check.py cannot digest a file without sites)
-    INSTRUMENT = [f for f in INSTRUMENT if f != "actor/pid.go"]
+
 TIMEOUT = 900
 
 
@@ -117,7 +122,8 @@ def _judge(case, out):
     tr = op[0].split()[1:]
     if "cap" in tr:
         return "ok unfinished"
-    fixed = "fixed" in cp[0].split()
+    nasks = sum(1 for p in progs for o in p if o.startswith("a"))
+    fixed = sum(1 for e in tr if e.endswith(":Store:responseClosed")) == nasks
     st = [[0, 0] for _ in progs]
     select_at, resp_at = {}, {}
     for pos, e in enumerate(tr):
@@ -175,16 +181,10 @@ def oracle(case, impl, judge):
 
 
 def classify(case, impl, why):
-    """C15-F1: an Ask times out although Response for it returned in time (`bad lost`), in a case where some caller
-    thread issues at least two Asks after another Ask was answered (only then can a recycled context be rebuilt while
-    its previous caller still has its late responseClosed.Store(true) to do)."""
-    if not why or not why.startswith("bad lost"):
-        return None
-    progs = [p.split() for p in case.split("|")[1].split(";")]
-    nasks = sum(1 for p in progs for o in p if o.startswith("a"))
-    ncallers = sum(1 for p in progs if any(o.startswith("a") for o in p))
-    if nasks >= 3 and ncallers >= 2:
-        return "C15-F1"
+    """No open finding (C15-F1 / C15-F2 were fixed by d1a16fa): every oracle failure is a violation. The class returned
+    here only keeps the shrinker on the same kind of PROPERTY failure (it is never a known-finding id)."""
+    if why and why.startswith("bad ") and len(why.split()) > 1:
+        return "unlisted:" + why.split()[1]
     return None
 
 
